@@ -230,7 +230,7 @@ func runC04(c *Ctx) {
 	}
 	// reject-closed
 	rejectPats = append(rejectPats,
-		"bin<>=>(index(p0, ind<+1>(0)), 128)", "bin<>>(index(p0, ind<+1>(0)), 127)",
+		"bin<>=>(index(p0, ind<+1>(0)), 128)", "bin<>>(index(p0, ind<+1>(0)), 127)", "bin<>=>(ext#2(next(range(p0))), 128)",
 		"un<!>(call<*>(ext#2(next(range(slice(p0, 0, "+hl+"))))))", "un<!>(call<*>(conv<rune>(index(p0, ind<+1>(0)))))", "un<!>(call<*>(index(p0, ind<+1>(0))))")
 	for _, v := range errs {
 		r.Check(c.vrejectClosed(v, rejectPats...), "C04.exits.reject-closed", c.vpos(v), "error return reachable only through a listed reject reason")
